@@ -2631,6 +2631,11 @@ func (c *Ctx) ruleX7() {
 					snap = fieldVarOf(fa)
 				}
 			}
+			if call, ok := in.(ssa.CallInstruction); ok {
+				if fv := setterStore(call, d); fv != nil {
+					snap = fv
+				}
+			}
 		})
 	}
 	if snap == nil {
